@@ -12,8 +12,17 @@ CHECKS = {}
 HOOK_COMMITS = []
 
 
-def check(pid, text, note, technique, engine="tlc", design_ref=None):
+SPEC_DIRS = {"C01": "RaceDriver", "C07": "RaceDriver", "C09": "RaceDriver", "C06": "Throughput", "C15": "BranchMatch"}
+
+
+def check(pid, text, note, technique, engine="tlc", design_ref=None, spec=None):
     CHECKS[pid] = dict(text=text, note=note, technique=technique, engine=engine, design_ref=design_ref or ("DESIGN.md §4 " + pid))
+    if spec:
+        SPEC_DIRS[pid] = spec
+
+
+def claimed_spec_dirs():
+    return sorted({SPEC_DIRS[p] for p in CHECKS if p in SPEC_DIRS})
 
 
 check(
